@@ -20,18 +20,28 @@ from pymodbus.transaction import ModbusRtuFramer, ModbusAsciiFramer, ModbusBinar
 EPS = 0.01
 
 
+class HorizonHit(BaseException):
+    """the execution exceeded its horizon of clock / transport operations: reported as a hang"""
+
+
 class VClock(object):
+    LIMIT = 60000
+
     def __init__(self):
         self.t = 1000.0
         self.calls = 0
 
     def time(self):
         self.calls += 1
+        if self.calls > self.LIMIT:
+            raise HorizonHit('clock')
         self.t += EPS
         return self.t
 
     def sleep(self, d):
         self.calls += 1
+        if self.calls > self.LIMIT:
+            raise HorizonHit('clock')
         self.t += max(0.0, d or 0.0)
 
 
@@ -50,6 +60,8 @@ class Line(object):
         self.eof = False                 # peer closed the connection
         self.reconnects = 0
         self.read_sizes = []             # sizes the client asked of the transport (logical reads)
+        self.conn = 0                    # id of the current connection; a closed one stays dead
+        self.dead = set()
         self.log = []
 
     # peer side -----------------------------------------------------------------
@@ -87,7 +99,9 @@ class Line(object):
     def wait(self, timeout):
         """block until data is available or `timeout` virtual seconds have passed; -> bool ready"""
         self.ops += 1
-        if self.read_fault == 'eof' or self.eof:
+        if self.ops > 200000:
+            raise HorizonHit('transport')
+        if self.read_fault == 'eof' or self.conn in self.dead:
             return True
         if self._avail():
             return True
@@ -114,6 +128,10 @@ class FakeSocket(object):
     def __init__(self, line):
         self.line = line
         self.closed = False
+        self.conn = line.conn
+
+    def _dead(self):
+        return self.conn in self.line.dead
 
     def setblocking(self, flag):
         pass
@@ -122,6 +140,9 @@ class FakeSocket(object):
         self.timeout = t
 
     def send(self, data):
+        if self._dead():
+            self.line.ops += 1
+            raise OSError('broken pipe: the peer closed this connection')
         return self.line.written(data)
 
     def recv(self, n):
@@ -130,7 +151,12 @@ class FakeSocket(object):
         if ln.read_fault == 'oserror':
             ln.read_fault = None
             raise OSError('connection reset by peer (injected)')
-        if ln.read_fault == 'eof' or (ln.eof and not ln._avail()):
+        if ln.read_fault == 'eof':
+            # the peer closed the connection: whatever it had not sent yet never arrives, and this
+            # socket stays dead (a new connection is healthy again)
+            ln.dead.add(self.conn)
+            ln.rx = []
+        if self._dead():
             return b''
         return ln._take(n)
 
@@ -181,7 +207,9 @@ class FakeSerial(object):
             if len(out) >= size:
                 break
             remaining = deadline - ln.clock.t
-            if remaining <= 0 or not ln.wait(remaining):
+            if remaining <= 0 or not ln.wait(remaining) or not ln._avail():
+                if ln._avail() == 0 and remaining > 0:
+                    ln.clock.t = max(ln.clock.t, deadline)      # a serial read blocks until its timeout
                 break
         return bytes(out)
 
@@ -227,6 +255,7 @@ class Patched(object):
 
     def __enter__(self):
         self.saved = (csync.time, csync.select, ptx.time, prtu.time, csync.socket.create_connection, csync.serial.Serial)
+        self.saved_socket = csync.socket.socket
         vt = types.SimpleNamespace(time=self.clock.time, sleep=self.clock.sleep)
         csync.time = vt
         ptx.time = vt
@@ -237,7 +266,7 @@ class Patched(object):
         def create_connection(addr, timeout=None, source_address=None):
             line.reconnects += 1
             line.rx = []
-            line.eof = False
+            line.conn += 1
             return FakeSocket(line)
 
         def serial_ctor(**kw):
@@ -245,11 +274,18 @@ class Patched(object):
             line.rx = []
             return FakeSerial(line, kw.get('timeout', 3))
         csync.socket.create_connection = create_connection
+
+        def udp_socket(*a, **k):
+            line.reconnects += 1
+            line.rx = []
+            return FakeUdp(line)
+        csync.socket.socket = udp_socket
         csync.serial.Serial = serial_ctor
         return self
 
     def __exit__(self, *a):
         (csync.time, csync.select, ptx.time, prtu.time, csync.socket.create_connection, csync.serial.Serial) = self.saved
+        csync.socket.socket = self.saved_socket
 
 
 KINDS = ('tcp', 'rtu-over-tcp', 'serial-rtu', 'serial-ascii', 'serial-binary', 'udp')
